@@ -119,7 +119,6 @@ package store
 //@ func (s *Store) Close() (err error)  property C02 C03 C17
 //@   exclusive Close is the shutdown of the store and is not among the concurrent operations C16 lists
 //@   preserves s
-//@   requires @record-size-limit forall b index.BucketIndex :: (b in s.index.nextPool) ==> len(s.index.nextPool[b]) < (1 << 31) - 8
 //@   modifies s.open, s.running, chan(s.closing), chan(s.closed), fp(FC), fp(INDEXCLOSE), s.index.$pending, s.index.$closed, s.index.Primary.$pending, s.index.Primary.$closed, s.index.Primary.$failed, s.freelist.blockPool, s.freelist.outstandingWork, s.freelist.$pending, s.freelist.file.$open
 //@   assert at before call (primary.PrimaryStorage).Flush#0: @C17-flusher-stopped old(s.running) ==> closed(s.closing) && waited(s.closed)
 //@   assert at before call freelist.FreeList.Close#0: @D1-index-before-freelist !s.index.$pending || event("call:index.Index.Close") == 1
@@ -134,6 +133,6 @@ package store
 // may only reach the freelist file when the index on disk no longer names it, and the index
 // on disk may only name primary records that are on disk.
 //@ func (s *Store) commit() (work types.Work, err error)  property C03
-//@   modifies s.index.$pending, s.index.Primary.$pending, s.freelist.$pending
+//@   modifies s.index.$pending, s.index.Primary.$pending, s.index.Primary.$failed, s.freelist.$pending
 //@   assert at before call freelist.FreeList.Flush#0: @D1-index-before-freelist !s.index.$pending && !s.index.Primary.$pending
 //@   ensures @committed err == nil ==> !s.index.$pending && !s.index.Primary.$pending && !s.freelist.$pending
